@@ -158,6 +158,9 @@ func craft(k knobs, label string) []byte {
 func (wd *world) construct(c Case) ([]byte, *type3.RateLimitedTokenRequestState) {
 	w := wd.w[c.Issuer]
 	lbl := fmt.Sprintf("%s-%d-%d", c.Build, c.Issuer, c.Variant)
+	if c.Build == "crafted-accepted-request-replayed-under-another-request-key" {
+		lbl = fmt.Sprintf("%s-%d-%d", "crafted-consistent", c.Issuer, c.Variant) // the very bytes the issuer has just served
+	}
 	honestArgs := func(origin string) px.T3Args {
 		return px.T3Args{Secret: mc.Fill(seedv, "secret-"+lbl, 48), Blind: mc.Fill(seedv, "blind-"+lbl, 48), Challenge: mc.Fill(seedv, "chal-"+lbl, 32), Nonce: mc.Fill(seedv, "nonce-"+lbl, 32), Origin: origin}
 	}
@@ -238,6 +241,13 @@ func (wd *world) construct(c Case) ([]byte, *type3.RateLimitedTokenRequestState)
 		k := base
 		k.innerCut = []int{1, 100, 257, 258}[c.Variant]
 		return craft(k, lbl), nil
+	case "crafted-accepted-request-replayed-under-another-request-key":
+		// the ciphertext of a request the issuer has just accepted, offered again with another request
+		// key in the outer request and a valid signature by THAT key: the associated data no longer
+		// matches, decryption must fail
+		k := base
+		k.outerReqKey, k.signer = compress(rk2), rk2
+		return craft(k, lbl), nil
 	case "crafted-short-encrypted-part":
 		// parses completely, correctly framed and signed, but the encrypted part is shorter than an
 		// encapsulated key (32 bytes) or than key + AEAD tag (48 bytes)
@@ -283,6 +293,18 @@ func run(c Case) (string, *mc.Viol) {
 			// a mutation of an accepted request: the issuer first serves exactly the untampered original
 			hc = c
 			hc.Mut, hc.Arg, hc.Expect, hc.AfterHonest = "none", 0, "accept", false
+		}
+		if c.Build == "crafted-accepted-request-replayed-under-another-request-key" {
+			hc = Case{Issuer: c.Issuer, Build: "crafted-consistent", Mut: "none", Expect: "accept", Variant: c.Variant}
+		}
+		if c.Build == "honest-client-for-other-issuer" {
+			// the request is first served by the issuer it was made for (same process), then offered here
+			oi := (c.Issuer + 1) % len(wd.w)
+			oreq, _ := wd.construct(c)
+			mc.Entropy("c07-eval-by-the-right-issuer")
+			if _, _, err := wd.w[oi].Issuer.Evaluate(append([]byte{}, oreq...)); err != nil {
+				return "other-issuer-rejects-its-own-request", &mc.Viol{Sig: "issuer rejects an authentic request: honest-client", What: err.Error()}
+			}
 		}
 		hreq, _ := wd.construct(hc)
 		hbuf = append([]byte{}, hreq...)
@@ -407,11 +429,17 @@ func main() {
 			cases = append(cases, Case{Issuer: is, Build: "crafted-inner-request-truncated", Mut: "none", Expect: "reject", Variant: v})
 		}
 	}
+	for is := 0; is < nIss; is++ {
+		for v := 0; v < 2; v++ {
+			cases = append(cases, Case{Issuer: is, Build: "crafted-accepted-request-replayed-under-another-request-key", Mut: "none", Expect: "reject", Variant: v, AfterHonest: true})
+		}
+		cases = append(cases, Case{Issuer: is, Build: "honest-client-for-other-issuer", Mut: "none", Expect: "reject", Variant: 1, AfterHonest: true})
+	}
 	// the rejecting classes again, each offered to a private issuer that has just served an honest request
 	n0 := len(cases)
 	for i := 0; i < n0; i++ {
 		c := cases[i]
-		if c.Issuer != 0 || c.Expect != "reject" {
+		if c.Issuer != 0 || c.Expect != "reject" || c.AfterHonest {
 			continue
 		}
 		if c.Mut == "bit" && c.Arg%16 != 3 || c.Mut == "trunc" && c.Arg%16 != 5 {
